@@ -25,6 +25,7 @@ static uint8_t g_hs_state_at_parse;
 static psTls13Psk_t S_psk;
 static psTls13SessionParams_t S_pskparams;
 
+static int g_cb_range_bad;
 #ifndef VF_REAL_AEAD
 static int32 vf_decrypt13(void *ctx, unsigned char *in, unsigned char *out, uint32 len)
 {
@@ -34,6 +35,12 @@ static int32 vf_decrypt13(void *ctx, unsigned char *in, unsigned char *out, uint
     g_dec_in = in;
     g_dec_out = out;
     g_dec_len = len;
+    if (len > VF_N || in < S_inbuf || in + len > S_inbuf + VF_N || out < S_inbuf || out + len > S_inbuf + VF_N)
+    {
+        g_cb_range_bad++;
+        g_dec_rc = -1;
+        return -1;
+    }
     /* contract of the real TLS 1.3 AEAD open functions (decided in C02.a):
        a record without room for the tag and the inner type is rejected */
     if (len <= TLS_GCM_TAG_LEN)
@@ -303,6 +310,7 @@ VF_MAIN
             "c18.tls13_partial_state_unchanged");
     }
 #endif
+    VF_ASSERT(g_cb_range_bad == 0, "c08.tls13_cipher_callback_ranges_inside_input_buffer");
     (void) in_copy;
     (void) pre_maxed;
     VF_REACH("end");
